@@ -16,6 +16,7 @@
   graphs incl. cycles, shared and unreferenced types), not proved; signature shape / recovery are C05's theorems.
 -/
 import FFS.Model.Eip712
+import FFS.Lemmas.Eip712Closure
 import FFS.Props.C05
 namespace FFS.Props.C04
 open FFS FFS.Model.Abi FFS.Model.Eip712
@@ -310,6 +311,62 @@ theorem type_order_irrelevant (fuel : Nat) (p : TypedData) (A B : TypeSet) (hp :
   simp only [hH]
 
 
+/-! ### a type definition nobody refers to is irrelevant -/
+
+open FFS.Lemmas.Eip712Closure (Good Unref)
+
+/-- two definitions with different names may be swapped at the front of a type set -/
+theorem sameSet_swap (a b : String × TypeDef) (R : TypeSet) (h : a.1 ≠ b.1) : SameSet (a :: b :: R) (b :: a :: R) := by
+  refine ⟨fun n => ?_, by simp⟩
+  unfold tsLookup
+  simp only [List.find?_cons]
+  by_cases ha : a.1 = n
+  · have hb : (b.1 == n) = false := by
+      have : b.1 ≠ n := fun e => h (ha.trans e.symm)
+      simpa using this
+    simp [ha, hb]
+  · have ha' : (a.1 == n) = false := by simpa using ha
+    simp [ha']
+
+/-- **The closure's fuel is not an artefact**: the model gives `addNestedTypes` `|types| + 2` units of fuel; any larger
+    amount computes the same dependency closure (the Go recursion has no fuel at all). -/
+theorem closure_fuel_sufficient (all : TypeSet) (tn : String) (j : Nat) :
+    addNestedTypes (all.length + 2 + j) tn all [] = addNestedTypes (all.length + 2) tn all [] :=
+  FFS.Lemmas.Eip712Closure.closure_fuel all tn j
+
+/-- **An unreferenced type definition is irrelevant.** Add to the `types` object a definition `u` that nothing refers
+    to — `u` is not (a prefix of) the primary type, `EIP712Domain`, or the type of any member of any definition in the
+    effective type set — and the digest is the same, or the document fails alike. The definition `d` itself is
+    arbitrary (it may be `null`, contain `null` members, refer to missing types, be recursive). This needs fuel
+    sufficiency of the dependency closure, because the larger type set gives the closure more fuel. -/
+theorem unreferenced_irrelevant (fuel : Nat) (p : TypedData) (A : TypeSet) (u : String) (d : TypeDef)
+    (hU : Unref u (effectiveTypes { p with types := some A }))
+    (hP : Good u p.primaryType) (hD : Good u EIP712Domain) :
+    encodeTypedDataV4 fuel { p with types := some ((u, d) :: A) } = encodeTypedDataV4 fuel { p with types := some A } := by
+  have hDne : EIP712Domain ≠ u := FFS.Lemmas.Eip712Closure.good_ne hD
+  have hlk : tsLookup ((u, d) :: A) EIP712Domain = tsLookup A EIP712Domain :=
+    FFS.Lemmas.Eip712Closure.lookup_cons_ne u d A EIP712Domain hDne
+  have key : ∀ tn v, Good u tn →
+      hashStruct fuel tn v (if (tsLookup A EIP712Domain).isSome then (u, d) :: A else tsInsert ((u, d) :: A) EIP712Domain (some [])) =
+      hashStruct fuel tn v (if (tsLookup A EIP712Domain).isSome then A else tsInsert A EIP712Domain (some [])) := by
+    intro tn v hg
+    simp only [effectiveTypes, Option.getD_some] at hU
+    by_cases hs : (tsLookup A EIP712Domain).isSome = true
+    · simp only [hs, if_true] at hU ⊢
+      exact (FFS.Lemmas.Eip712Closure.encoders_unref u d A hU fuel).2.1 tn v hg
+    · simp only [hs, Bool.false_eq_true, if_false] at hU ⊢
+      have hne : ((u, d).1 != EIP712Domain) = true := by simpa using (fun e => hDne e.symm)
+      have hins : tsInsert ((u, d) :: A) EIP712Domain (some []) =
+          (EIP712Domain, some []) :: (u, d) :: A.filter (·.1 != EIP712Domain) := by
+        simp only [tsInsert, List.filter_cons, hne, if_true]
+      rw [hins]
+      have hsw := sameSet_swap (EIP712Domain, some []) (u, d) (A.filter (·.1 != EIP712Domain)) hDne
+      rw [(encoders_same _ _ hsw fuel).2.1 tn v]
+      exact (FFS.Lemmas.Eip712Closure.encoders_unref u d (tsInsert A EIP712Domain (some [])) hU fuel).2.1 tn v hg
+  unfold encodeTypedDataV4
+  simp only [Option.getD_some, hlk]
+  rw [key EIP712Domain _ hD, key p.primaryType _ hP]
+
 /-! ### non-vacuity: a concrete document on which the theorems' hypotheses hold (evaluated by the kernel) -/
 
 def exDoc : TypedData :=
@@ -341,5 +398,21 @@ example : exTypes.Perm
        ("EIP712Domain", some [some { name := "name", type := "string" }])] ∧
     (exTypes.map fun (d : String × TypeDef) => d.1).Nodup :=
   ⟨List.Perm.swap _ _ _, by decide⟩
+
+/-- non-vacuity of `unreferenced_irrelevant`: `Junk` (a self-referential definition with a `null` member) is unreferenced
+    in `exDoc`; the hypotheses hold and both documents are accepted -/
+example : Unref "Junk" (effectiveTypes exDoc) ∧ Good "Junk" exDoc.primaryType ∧ Good "Junk" EIP712Domain := by
+  refine ⟨?_, by decide +kernel, by decide +kernel⟩
+  have hE : effectiveTypes exDoc = exDoc.types.getD [] := by
+    simp [effectiveTypes, exDoc, tsLookup, EIP712Domain]
+  rw [hE]
+  intro e he raw hr mem hm
+  simp [exDoc] at he
+  rcases he with h | h <;> subst h <;> simp at hr <;> subst hr <;> simp at hm
+  · subst hm; decide +kernel
+  · rcases hm with h | h <;> subst h <;> decide +kernel
+
+example : (match encodeTypedDataV4 8 { exDoc with types := some (("Junk", some [none, some { name := "j", type := "Junk[]" }]) ::
+      exDoc.types.getD []) } with | .ok d => d.length == 32 | _ => false) = true := by decide +kernel
 
 end FFS.Props.C04
